@@ -20,7 +20,7 @@ MIN_CASES_PER_SHARD = 50
 CASE_TIMEOUT = 30
 RULE = ("one case = one generated map (3..12 nodes; magnitudes: unit scale, projected metres ~1e7, degrees; classes: random, "
         "dyadic grid, a node millimetres inside a 2-50 km disc at its extreme-longitude point at high latitude, long edges crossing the disc, items within one float32 ulp of the search-box border, items exactly at "
-        "the radius) loaded in InMemMap and SqliteMap, optionally with labels added a second time, with 4 query points x radii (incl. infinite) x max_elmt; every "
+        "the radius) loaded in InMemMap and SqliteMap, optionally with labels added a second time, 20 % with the package logger at DEBUG, with 4 query points x radii (incl. infinite) x max_elmt; every "
         "nodes_closeto/edges_closeto answer is compared with the model's full scan. Non-trivial = the true answer is neither "
         "empty nor everything; distinct = hash of (map, query)")
 ANCHORS = [("leuvenmapmatching/map/inmem.py", "InMemMap.nodes_closeto"),
@@ -33,7 +33,7 @@ ANCHORS = [("leuvenmapmatching/map/inmem.py", "InMemMap.nodes_closeto"),
 CELLS = [f"{b}:{q}:{m}" for b in ("inmem", "sqlite") for q in ("nodes", "edges") for m in ("unit", "big", "latlon")]
 FLOORS = {f"cell:{c}": 300 for c in CELLS}
 FLOORS.update({"class:tangent": 40, "class:long_edge": 100, "class:border32": 100, "class:at_radius": 100, "class:infinite": 100,
-               "queries_judged": 8000, "truncations_judged": 1500, "long_edge_through_disc": 60,
+               "debug_level_maps": 500, "queries_judged": 8000, "truncations_judged": 1500, "long_edge_through_disc": 60,
                "item_exactly_at_radius": 40, "item_within_ulp32_of_box_border": 60})
 ASSUMPTIONS = ["membership is not judged for items whose reference distance is within 1e-9*r (planar; exactly-equal is judged by "
                "rational arithmetic) / 1 mm (lat-lon nodes) / 0.25 m (lat-lon edges) of the radius",
@@ -175,7 +175,8 @@ def gen_case(rng, i, tier):
         for l, p0 in rng.sample(nodes, min(len(nodes), 2)):
             shift = 0.0 if rng.random() < 0.4 else (rs[1] * rng.choice([1.5, -2.0]) if mag != "latlon" else 0.001)
             dups.append([l, [p0[0] + shift, p0[1] - shift]])
-    return {"map": m, "mag": mag, "cls": cls, "queries": queries, "bulk": rng.random() < 0.7, "dups": dups}
+    return {"map": m, "mag": mag, "cls": cls, "queries": queries, "bulk": rng.random() < 0.7, "dups": dups,
+            "debug": rng.random() < 0.2}
 
 
 def _outside(box, p):
@@ -296,6 +297,14 @@ def judge_edges(ctx, case, backend, mp, model, q, res_full):
 
 
 def check_case(ctx, case):
+    # what lies within the radius does not depend on the log level: a fifth of the maps is built and queried at DEBUG
+    if case.get("debug"):
+        ctx.count("debug_level_maps")
+    with env.debug_level(bool(case.get("debug"))):
+        _check_case(ctx, case)
+
+
+def _check_case(ctx, case):
     m = case["map"]
     model = MapModel(m)
     im = build.make_inmem(m)
